@@ -205,6 +205,21 @@ def task(W, payload):
                     fail(out, f"euler row {i+1} was not computed from the rates at (times[{i}], outputs[{i}])", "c10", payload,
                          row=i + 1, got=list(map(float, outputs[i + 1])), want=list(map(float, want)), program=prog["build"], params=prog["params"])
                     break
+        if solver == "rk4":
+            # the classical fourth-order step re-derived from the rate function: the four stages are evaluated at times[i], times[i] + h/2 (twice)
+            # and times[i] + h, at the stage states
+            hstep = float(m.times[1] - m.times[0])
+            f_ = lambda y, t: np.asarray(runner.impl_dict["one_step"](p, float(t), jnp.array(y)).comp_rates, dtype=float)
+            for i in range(len(m.times) - 1):
+                y = outputs[i]; t = float(m.times[i])
+                k1 = f_(y, t); k2 = f_(y + hstep / 2 * k1, t + hstep / 2); k3 = f_(y + hstep / 2 * k2, t + hstep / 2); k4 = f_(y + hstep * k3, t + hstep)
+                want = y + hstep / 6 * (k1 + 2 * k2 + 2 * k3 + k4)
+                if not (np.all(np.isfinite(want)) and np.abs(want).max() < 1e7):
+                    break
+                if not vec_close(list(outputs[i + 1]), list(want), 1e-9):
+                    fail(out, f"rk4 row {i+1} was not computed from the rates at the stage times and states of step {i} (times[{i}], times[{i}]+h/2, times[{i}]+h)", "c10", payload,
+                         row=i + 1, got=list(map(float, outputs[i + 1])), want=list(map(float, want)), program=prog["build"], params=prog["params"])
+                    break
     if payload["index"] == 0:
         out["sample"] = {"program": prog["build"], "params": prog["params"]}
     return out
